@@ -207,7 +207,7 @@ func ordEvalSnapshot(r *core.Run, u []ordVariant, c *ordCase) {
 
 func runC13(r *core.Run) {
 	r.Rule("(a) the four strict-weak-order laws (irreflexive, asymmetric, transitive, transitive incomparability) of the real comparator (through the hook) on ALL triples of a signature universe varying stack length 0..3, per-frame location class (5), package-main membership, function/file/line, lock flag, state; " +
-		"(b) the stated consequence on all pairs: all-stdlib after main/module/GOPATH/module-cache code; (c) black box: aggregations of 2..7 goroutines from the universe - bucket order is a linear extension of the comparator, First bucket first, user code before all-stdlib. " +
+		"(b) the stated consequence on all pairs: all-stdlib after main/module/GOPATH/module-cache code; (d) black box on the whole comparison incl. its last tie-breaks: buckets that tie under the signature comparison (same frames, other creators) with varying sleep ranges and sizes, aggregated in 10 arrival orders - two buckets may swap places only if they are in arrival order everywhere; (c) black box: aggregations of 2..7 goroutines from the universe - bucket order is a linear extension of the comparator, First bucket first, user code before all-stdlib. " +
 		"distinct by construction (triples) / by hash (snapshots); non-trivial = the three signatures are pairwise different")
 	full := !r.Quick()
 	u := ordUniverse(full)
@@ -285,10 +285,20 @@ func runC13(r *core.Run) {
 			r.Sample(map[string]any{"snapshot_signatures": d})
 		}
 	})
+	c13Perm(r)
 	r.Sample(map[string]any{"triple_example": []string{u[1].Desc, u[n/3].Desc, u[n-2].Desc}})
 }
 
 func replayC13(r *core.Run, kind string, raw json.RawMessage) {
+	if kind == "perm" {
+		var pc permCase
+		if err := json.Unmarshal(raw, &pc); err != nil {
+			r.Broken(err.Error())
+			return
+		}
+		c13PermEval(r, &pc)
+		return
+	}
 	var c ordCase
 	if err := json.Unmarshal(raw, &c); err != nil {
 		r.Broken(err.Error())
